@@ -350,6 +350,111 @@ def _attr_betdaq(batches):
     return dict(violations=_dedup(out), counts=counts)
 
 
+def _betdaq_place_reports(arrangements):
+    """Betdaq: the reports of a place request come back in any order (one may be missing, one may carry an error
+    code): each is applied to the order whose reference it carries - bet id, status and failure - never by position"""
+    from flumine import BaseStrategy
+    from flumine.clients import BetdaqClient
+    from flumine.order.trade import Trade
+    from flumine.order.ordertype import BetdaqLimitOrder
+    from flumine.order.orderpackage import BetdaqOrderPackage, OrderPackageType
+
+    out = []
+    counts = {"clause:C19.b": 0, "betdaq_place_arrangements": 0}
+    LiveFlumine, _ = livex.live_classes()
+    for arr in arrangements:
+        order_of, failing = arr  # order_of: tuple of order indices in the order the reports come back
+        with core.owned_config(simulated=False):
+
+            class _API:
+                username = "bdq"
+
+                def __init__(s_):
+                    s_.betting = s_
+
+                def place_orders(s_, order_list, **kw):
+                    reps = []
+                    for pos in order_of:
+                        ins = order_list[pos]
+                        bad = pos == failing
+                        reps.append(dict(customer_reference=ins["PunterReferenceNumber"], order_id=None if bad else 7000 + pos, return_code=137 if bad else 0, status=None if bad else "Unmatched", matched_size=0.0, remaining_size=ins["Stake"], matched_price=0.0))
+                    return reps
+
+            client = BetdaqClient(_API())
+            fw = LiveFlumine(client)
+            st = BaseStrategy(market_filter={}, name="bdq", max_order_exposure=None, max_selection_exposure=None)
+            fw.strategies(st, fw.clients, fw)
+            orders = []
+            for i in range(3):
+                tr = Trade("1.100000001", 1 + i, 0, st)
+                o = tr.create_betdaq_order("BACK", BetdaqLimitOrder(2.0 + i, 2.0 + i, betdaq_runner_id=700 + i, runner_reset_count=0, withdrawal_sequence_number=0))
+                o.update_client(client)
+                o.place(0, None, False)
+                orders.append(o)
+            pkg = BetdaqOrderPackage(client=client, market_id="1.100000001", orders=list(orders), package_type=OrderPackageType.PLACE, bet_delay=0, market_version=None)
+            err = None
+            try:
+                fw.betdaq_execution.execute_place(pkg, None)
+            except Exception as e:  # noqa
+                err = repr(e)
+        counts["clause:C19.b"] += 1
+        counts["betdaq_place_arrangements"] += 1
+        case = dict(betdaq_place=[list(order_of), failing])
+        if err:
+            out.append(core.v("C19.b", ("roundtrip exception", "betdaq-place"), "execute_place raised %s" % err, case))
+            continue
+        for i, o in enumerate(orders):
+            if i not in order_of:
+                continue  # no report for this order: nothing to attribute
+            exp_bet = None if i == failing else 7000 + i
+            exp_status = "EXECUTION_COMPLETE" if i == failing else "EXECUTABLE"
+            if o.bet_id != exp_bet or o.status.name != exp_status:
+                out.append(core.v("C19.b", ("roundtrip attribution", "betdaq-place-report"), "reports came back for orders %s (order %s refused): order %d has bet id %r status %s, its own report says %r / %s" % (list(order_of), failing, i, o.bet_id, o.status.name, exp_bet, exp_status), case))
+                break
+    return dict(violations=_dedup(out), counts=counts)
+
+
+def _cleared_attr(seps_):
+    """live settlement: the cleared-orders report carries the customer order reference; splitting it recovers the
+    order for every permitted separator (the blotter attributes the settled report and profit to that order)"""
+    from flumine import BaseStrategy
+    from flumine.events import events
+    from betfairlightweight.resources.bettingresources import ClearedOrders
+
+    out = []
+    counts = {"clause:C19.b": 0, "cleared_reports": 0}
+    for sep in seps_:
+        w = livex.LiveWorld([], strategies=("alpha",))
+        w.start()
+        try:
+            fw = w.framework
+            st = list(fw.strategies)[0]
+            m = fw.markets.markets["1.100000001"]
+            os_ = []
+            for k in range(2):
+                o = _mk(st, sep)
+                o.bet_id = str(5000 + k)
+                m.blotter[o.id] = o
+                os_.append(o)
+            rows = [{"marketId": "1.100000001", "betId": o.bet_id, "customerOrderRef": o.customer_order_ref, "customerStrategyRef": "verif", "profit": 1.5 + k, "sizeSettled": 2.0, "selectionId": 1, "side": "BACK"} for k, o in enumerate(os_)]
+            co = ClearedOrders(clearedOrders=rows, moreAvailable=False)
+            co.market_id = "1.100000001"
+            w.dispatch(events.ClearedOrdersEvent(co))
+            counts["clause:C19.b"] += 1
+            counts["cleared_reports"] += len(rows)
+            case = dict(cleared_sep=sep)
+            for k, o in enumerate(os_):
+                got = getattr(o, "cleared_order", None)
+                if got is None or got.bet_id != o.bet_id:
+                    out.append(core.v("C19.b", ("roundtrip attribution", "cleared-order"), "separator %r: the cleared report of bet %s was not attributed to its order (cleared_order=%r)" % (sep, o.bet_id, got and got.bet_id), case))
+                    break
+            if w.handler_exceptions:
+                out.append(core.v("C19.b", ("roundtrip exception", "cleared-order"), w.handler_exceptions[0][-300:], case))
+        finally:
+            w.stop()
+    return dict(violations=_dedup(out), counts=counts)
+
+
 def _dedup(vs, per_key=1):
     seen, out = {}, []
     for d in vs:
@@ -389,7 +494,19 @@ def run(tier):
     for r in core.pmap(_attr_betdaq, [bb[i::8] for i in range(8)], chunk=1):
         rep.add_violations(r["violations"])
         rep.merge_counts(r["counts"])
-    rep.need("replacement_bet_reports", "betdaq_batches")
+    arrs = []
+    for k in (2, 3):
+        for order_of in itertools.permutations(range(3), k):
+            for failing in (None, 0, 1, 2):
+                arrs.append((order_of, failing))
+    for r in core.pmap(_betdaq_place_reports, [arrs[i::8] for i in range(8)], chunk=1):
+        rep.add_violations(r["violations"])
+        rep.merge_counts(r["counts"])
+    vs = sorted(VALID)
+    for r in core.pmap(_cleared_attr, [vs[i::8] for i in range(8)], chunk=1):
+        rep.add_violations(r["violations"])
+        rep.merge_counts(r["counts"])
+    rep.need("replacement_bet_reports", "betdaq_batches", "betdaq_place_arrangements", "cleared_reports")
     rep.need("valid_seps_accepted", "invalid_seps_rejected", "orders_created", "roundtrip_refs", "unknown_strategy_refs")
     rep.states = len(nm) * (len(seps()) - 1) * 2 + len(rj)
     rep.transitions = sum(rep.clauses.values())
@@ -411,7 +528,11 @@ def run(tier):
 
 def replay(rep):
     c = rep["case"]
-    if "attr_replacement" in c:
+    if "betdaq_place" in c:
+        r = _betdaq_place_reports([(tuple(c["betdaq_place"][0]), c["betdaq_place"][1])])
+    elif "cleared_sep" in c:
+        r = _cleared_attr([c["cleared_sep"]])
+    elif "attr_replacement" in c:
         r = _attr_replacement(tuple(c["attr_replacement"]))
     elif "betdaq_batch" in c:
         r = _attr_betdaq([tuple(c["betdaq_batch"])])
